@@ -127,9 +127,12 @@ static int g_cam_closes0, g_sto_closes0, g_cam_opens0, g_sto_opens0;
                IMPL(g_valid0 & 2, STARTED_STREAM(g_rt, 1))))                                  \
     ENS("[C08.failed-start-not-running] Error: the runtime does not claim to be Running",    \
         IMPL(RET != AcquireStatus_Ok, g_rt->state == DeviceState_AwaitingConfiguration))      \
-    ENS("[C07.workers-always-stoppable,C08.invariant] the runtime invariant is preserved: "  \
-        "in particular no filter or sink worker is left alive without a source worker and "   \
-        "without a stop request (a later stop, abort or shutdown would never return)",         \
+    ENS("[C07.workers-always-stoppable,C08.invariant,C09.next-acquisition-starts-clean] "    \
+        "the runtime invariant is preserved: in particular no filter or sink worker is left " \
+        "alive without a source worker and without a stop request (a later stop, abort or "   \
+        "shutdown would never return), and no started filter or sink carries a stop flag "    \
+        "left over from an earlier (failed) acquisition while its source runs (it would "     \
+        "exit at once and the new acquisition's frames would never be stored)",               \
         RI(g_rt))                                                                             \
     ENS("[C08.no-device-closed-by-start] start opens and closes no device",                  \
         ag.cam_closes == g_cam_closes0 && ag.sto_closes == g_sto_closes0 && NO_LEAK(g_rt))    \
